@@ -565,7 +565,7 @@ func (s *simState) unmarkedUncovered() []uint64 {
 
 func genC34(c *hlib.Ctx) {
 	r := c.R
-	n := c.N(700, 12000)
+	n := c.N(700, 6000)
 	if c.Tier == "search" {
 		n = 1500 // the search after a broken proof/tie: a bounded extra budget
 	}
